@@ -60,10 +60,12 @@ Definition q_approx (x y : Q) : bool :=
 Inductive xval : Type :=
 | XV (v : val)               (* exact *)
 | XA (q : Q)                 (* approximately q *)
-| XL (l : list xval).
+| XL (l : list xval)
+| XW.                         (* wildcard: not compared *)
 Fixpoint xval_ok (m : val) (e : xval) {struct e} : bool :=
   match e with
   | XV v => val_eqb m v
+  | XW => true
   | XA q => match m with VQ x => q_approx x q | VZ x => q_approx (inject_Z x) q | _ => false end
   | XL es =>
       match m with
